@@ -389,9 +389,11 @@ func Pure(p *core.Prog, r *core.Report) {
 			if !ok {
 				return
 			}
-			g := core.StaticCallee(c)
-			if g == nil || core.QualName(g) != "reflect.DeepEqual" {
+			if !isEqualityCall(p, c) {
 				return
+			}
+			if g := core.StaticCallee(c); g != nil && core.QualName(g) != "reflect.DeepEqual" {
+				nDE++ // the package's predicate covers both the direct comparison and the cross-type one
 			}
 			nDE++
 			a, b := through(c.Call.Args[0]), through(c.Call.Args[1])
@@ -438,7 +440,11 @@ func Pure(p *core.Prog, r *core.Report) {
 			if g == nil {
 				return
 			}
-			switch core.QualName(g) {
+			qn := core.QualName(g)
+			if isEqualityCall(p, c) {
+				qn = "reflect.DeepEqual"
+			}
+			switch qn {
 			case "reflect.DeepEqual":
 				if through(c.Call.Args[0]) == ssa.Value(data) {
 					guarded := false
@@ -471,6 +477,15 @@ func Pure(p *core.Prog, r *core.Report) {
 			if _, ok := core.IsCallTo(i, "strings.EqualFold"); ok {
 				fold = true
 			}
+			if c, ok := i.(*ssa.Call); ok {
+				if h := core.StaticCallee(c); h != nil && p.InSubject(h) && len(c.Call.Args) == 2 {
+					core.EachInstr(h, func(j ssa.Instruction) {
+						if _, ok := core.IsCallTo(j, "strings.EqualFold"); ok {
+							fold = true
+						}
+					})
+				}
+			}
 		})
 		// the string compared is the content of the value, not what its String() method prints
 		viaFmt := ""
@@ -494,7 +509,7 @@ func Pure(p *core.Prog, r *core.Report) {
 			if !is {
 				return
 			}
-			if g := core.StaticCallee(c); g == nil || core.QualName(g) != "reflect.DeepEqual" {
+			if !isEqualityCall(p, c) {
 				return
 			}
 			// one side: current element val.Index(i).Interface(); other: an element of the list of earlier elements
@@ -505,7 +520,7 @@ func Pure(p *core.Prog, r *core.Report) {
 				}
 			}
 		})
-		clause(ok, "UniqueItems:deep-equality", p.Pos(f.Pos()), "each element is compared with the earlier ones by reflect.DeepEqual", "UniqueItems no longer uses deep equality between elements")
+		clause(ok, "UniqueItems:deep-equality", p.Pos(f.Pos()), "each element is compared with the earlier ones by deep equality (reflect.DeepEqual or the package's value-equality predicate)", "UniqueItems no longer uses deep equality between elements")
 		// the duplicate verdict has no other source than that comparison, and every element joins the list of
 		// earlier elements (a shortcut deciding some kinds of elements otherwise — identity of pointers, a hash
 		// lookup — changes what "equal" means for them)
@@ -522,10 +537,8 @@ func Pure(p *core.Prog, r *core.Report) {
 			nDup++
 			guarded := false
 			for _, cd := range core.CondsAt(c.Block()) {
-				if dc, isC := cd.Value.(*ssa.Call); isC && cd.Sense {
-					if dg := core.StaticCallee(dc); dg != nil && core.QualName(dg) == "reflect.DeepEqual" {
-						guarded = true
-					}
+				if dc, isC := cd.Value.(*ssa.Call); isC && cd.Sense && isEqualityCall(p, dc) {
+					guarded = true
 				}
 			}
 			if !guarded {
@@ -802,6 +815,56 @@ func convertIsExact(c *ssa.Call) bool {
 	for _, ref := range core.Refs(c) {
 		if c2, ok := ref.(*ssa.Call); ok {
 			if g := core.StaticCallee(c2); g != nil && core.QualName(g) == "reflect.Value.Convert" && c2.Call.Args[0] == ssa.Value(c) {
+				return true
+			}
+		}
+	}
+	return false
+}
+
+// isEqualityCall: a call that decides value equality of its two operands: reflect.DeepEqual, or the package's own
+// value-equality predicate — a function of two interface{} values to bool whose first act is the reflect.DeepEqual
+// of those two (so that it can only widen deep equality, and equal nils are equal).
+func isEqualityCall(p *core.Prog, c *ssa.Call) bool {
+	g := core.StaticCallee(c)
+	if g == nil || len(c.Call.Args) != 2 {
+		return false
+	}
+	if core.QualName(g) == "reflect.DeepEqual" {
+		return true
+	}
+	return isValueEqualityPredicate(p, g)
+}
+
+func isValueEqualityPredicate(p *core.Prog, g *ssa.Function) bool {
+	if !p.InSubject(g) || len(g.Params) != 2 || g.Signature.Results().Len() != 1 || len(g.Blocks) == 0 {
+		return false
+	}
+	if b, ok := g.Signature.Results().At(0).Type().Underlying().(*types.Basic); !ok || b.Kind() != types.Bool {
+		return false
+	}
+	for _, prm := range g.Params {
+		if it, ok := prm.Type().Underlying().(*types.Interface); !ok || it.NumMethods() != 0 {
+			return false
+		}
+	}
+	// entry block: DeepEqual(param0, param1), its true edge returns true
+	for _, i := range g.Blocks[0].Instrs {
+		c, ok := i.(*ssa.Call)
+		if !ok {
+			continue
+		}
+		h := core.StaticCallee(c)
+		if h == nil || core.QualName(h) != "reflect.DeepEqual" || through(c.Call.Args[0]) != ssa.Value(g.Params[0]) || through(c.Call.Args[1]) != ssa.Value(g.Params[1]) {
+			continue
+		}
+		ifi, ok := g.Blocks[0].Instrs[len(g.Blocks[0].Instrs)-1].(*ssa.If)
+		if !ok || ifi.Cond != ssa.Value(c) {
+			return false
+		}
+		tb := g.Blocks[0].Succs[0]
+		if ret, ok := tb.Instrs[len(tb.Instrs)-1].(*ssa.Return); ok {
+			if k, isK := ret.Results[0].(*ssa.Const); isK && k.Value != nil && k.Value.ExactString() == "true" {
 				return true
 			}
 		}
